@@ -53,6 +53,25 @@ SeqMax(s) == CHOOSE x \in {s[i] : i \in 1..Len(s)} : \A j \in 1..Len(s) : x >= s
 SetMin(S) == CHOOSE x \in S : \A y \in S : x <= y
 SetMax(S) == CHOOSE x \in S : \A y \in S : x >= y
 
+(* floor(a * b / c) without a 64-bit product: long multiplication by doubling. *)
+(* MulDivMod(x, b, c) = <<q, r>> with x * b = q * c + r, for 0 <= x < c < 2^30,  *)
+(* b >= 0 (the quotient must fit 31 bits).                                       *)
+RECURSIVE MulDivMod(_, _, _)
+MulDivMod(x, b, c) ==
+  IF b = 0 THEN <<0, 0>>
+  ELSE LET h  == MulDivMod(x, b \div 2, c)
+           q2 == 2 * h[1] + (2 * h[2]) \div c
+           r2 == (2 * h[2]) % c
+       IN IF b % 2 = 0 THEN <<q2, r2>>
+          ELSE <<q2 + (r2 + x) \div c, (r2 + x) % c>>
+\* any sign of a; b >= 0; c > 0
+MulDivFloor(a, b, c) ==
+  LET aa == Abs(a)
+      md == MulDivMod(aa % c, b, c)
+      q  == (aa \div c) * b + md[1]
+  IN IF a >= 0 THEN q ELSE IF md[2] = 0 THEN -q ELSE -q - 1
+MulDivCeil(a, b, c) == -MulDivFloor(-a, b, c)
+
 (* compare rationals a/b and c/d with b, d > 0, products must fit 31 bits  *)
 RatLt(a, b, c, d) == a * d < c * b
 RatLe(a, b, c, d) == a * d <= c * b
